@@ -6,6 +6,22 @@ import os
 HERE = os.path.dirname(os.path.dirname(os.path.abspath(__file__)))
 
 CLAIMS = {
+    "C02": dict(
+        text="Static shape analysis and def-use rules for the ridge kernels: a symbolic-shape interpreter runs "
+             "predict of the three regression classes, fit/init and the vectorised prediction over contexts and "
+             "arms for all four classes (one feature | several) x (one query row | several) and rejects shape "
+             "incompatibility, two-sided broadcasts (accidental outer products) and results other than (m,) / "
+             "(m, k); init is interpreted in a scaled-identity domain (A = lambda*I, A_inv = I/lambda, X'y = 0, "
+             "beta = 0); fit updates A and X'y in accumulate form and derives A_inv, beta from them in def-use "
+             "order; writers and documented reads of the model fields; joint row selection. Decides shape "
+             "correctness for every (d, m) and the never-observed-arm model, not numerical agreement with an "
+             "oracle. Found and guards the repaired LinTS d=1/m>1 broadcast; A_inv = A.copy() is a known finding.",
+        note="Trusted: numpy broadcasting/dot/squeeze rules as encoded in mabstat/rules/shapes.py; scale=True "
+             "path preserves shapes. Not decided: agreement with linalg.solve as numbers, conditioning, the "
+             "LinTS distribution.",
+        technique="abstract interpretation over symbolic array shapes (case split on d=1/>1, m=1/>1) and over a "
+                  "scaled-identity domain; AST def-use rules",
+        ref="DESIGN.md section 3, C02"),
     "C19": dict(
         text="Static check that the bandit's object graph is plain data: no field store (AST over all classes of "
              "the graph, and values on the abstract traces of all 55 configurations) holds a lambda, generator "
